@@ -341,6 +341,8 @@ class Interp:
         if isinstance(a, (Vec, Arr)) or isinstance(b, (Vec, Arr)):
             return self.lib.elementwise2(self, lambda x, y: self.scalar_binop(op, x, y), a, b)
         if isinstance(a, Opaque) or isinstance(b, Opaque):
+            if op in ('+', '%'):
+                return Opaque('text')          # log-message construction; the result stays uninspectable
             raise OutOfSubset('arithmetic on an opaque value')
         return self.scalar_binop(op, a, b)
 
@@ -758,6 +760,11 @@ class Interp:
                 return Builtin('object.__init__', lambda i, a, k: None)
             raise OutOfSubset(f'super().{name}')
         if isinstance(v, SliceVal):
+            if name == 'indices':
+                def indices(i, a, k, v=v):
+                    start, stop = self.lib.slice_bounds(v, a[0])
+                    return (start, stop, 1)
+                return Builtin('slice.indices', indices)
             return getattr(v, name)
         if isinstance(v, ExcObj):
             if name == 'args':
